@@ -48,6 +48,9 @@ func (a baseAlgo) SelectBeacons(_ context.Context, beacons []Beacon, resultSize 
 	if len(beacons) <= resultSize {
 		return beacons
 	}
+	if resultSize <= 1 {
+		return beacons[:max(resultSize, 0)]
+	}
 
 	result := make([]Beacon, resultSize-1, resultSize)
 	copy(result, beacons[:resultSize-1])
